@@ -69,12 +69,19 @@ def gen_case(rng):
         return {'op': 'f_assign_bloc', 'f': f, 'mask': [[rng.random() < 0.4 for _ in f['columns']] for _ in f['index']],
                 'v': rng.choice(ELEMS)}, C.rand_layout(rng, f)
     if r < 0.78:
-        f = C.rand_frame(rng, 3, 5, kinds='ib', index_kind=ik, min_cols=1)
+        f = C.rand_frame(rng, 3, 6, kinds='ib', index_kind=ik, min_cols=1)
         to = rng.choice([['f', 64], ['O', 0], ['i', 64]])
         if to == ['i', 64]:
             for c in f['cols']:
                 pass
         ck = C.rand_loc_key(rng, f['columns'])
+        if rng.random() < 0.4 and len(f['columns']) >= 3:
+            # a non-contiguous list key towards a dtype that some columns already have
+            pos = sorted(set(rng.sample(range(len(f['columns'])), rng.randint(2, len(f['columns'])))))
+            ck = ['loclist', [f['columns'][p] for p in pos]]
+            to = rng.choice([c['dt'] for c in f['cols']])
+            if to[0] == 'b':
+                to = ['i', 64]
         return {'op': 'f_astype', 'f': f, 'ck': ck, 'to': to}, C.rand_layout(rng, f)
     if r < 0.84:
         f = C.rand_frame(rng, 3, 4, index_kind=ik)
